@@ -59,7 +59,7 @@ SLICES = {
                   ConnRMs={NA, 1}, AckRMs={NA, 1}, MaxHeld=0),
     # topic aliases (C13)
     "alias_send": dict(Vers={"v50"}, AppKinds={"publish"}, PeerKinds={"puback"}, QosSet={0, 1}, Topics={"t1", "t2", ""},
-                       Aliases={0, 1, 2}, AckTAMs={NA, 0, 1, 2}, AckRMs={NA, 1}, MaxConns=2, Cleans={True}, MaxHeld=1, MaxUsed=1),
+                       Aliases={0, 1, 2}, AckTAMs={NA, 0, 1, 2}, AckRMs={NA, 1}, MaxConns=2, Cleans={True}, MaxHeld=1, MaxUsed=2),
     "alias_auto": dict(Vers={"v50"}, AppKinds={"publish"}, PeerKinds={"puback"}, QosSet={0, 1}, Topics={"t1", "t2"},
                        Aliases={0, 1}, AckTAMs={NA, 1, 2}, AckRMs={NA, 1}, AckMPSs={NA, 12}, OptSets=[{"auto_map"}, {"auto_replace"}],
                        MaxConns=2, Cleans={False}, ConnSEIs={10}, SPs={True, False}, MaxHeld=1, MaxUsed=1),
@@ -138,6 +138,7 @@ PAIR_SLICES = {
     "pair_v50_auto": dict(Ver="v50", SRM=1, CRM=2, Ops={"pub1", "pub2"}),
     "pair_v50_manual": dict(Ver="v50", AutoPub=False, SRM=2, Ops={"pub1", "pub2", "unsub"}, Sides={"s"}),
     "pair_v50_alias": dict(Ver="v50", STAM=1, CTAM=1, AliasModes={"none", "bind", "use"}, Ops={"pub0", "pub1"}, MaxOps=3, MaxLoss=1),
+    "pair_v50_rm3": dict(Ver="v50", SRM=1, CRM=NA, Ops={"pub1", "pub2"}, Sides={"c"}, MaxOps=3, MaxLoss=1),
     "pair_v50_ka": dict(Ver="v50", KA=10, MaxFire=1, AutoPing=False, Ops={"pub1", "ping"}, Chunks=True, MaxOps=1),
 }
 
